@@ -874,6 +874,24 @@ class C15(Prop):
   DIMS = [[2], [3], [4], [5], [7], [2, 2], [3, 2], [2, 3], [2, 2, 2], [4, 3], [3, 3], [5, 4], [6, 4],
           [2, 2, 2, 2, 2, 2, 2, 2]]      # 8 decisions: NEAT species tolerate one differing decision
 
+  def gen_init_phase(self, rng):
+    """An Evolution over an order-sensitive initialiser that crashes INSIDE its initial phase: batches of
+    initial proposals, each batch evaluated completely but in shuffled order (3rd before 2nd …)."""
+    init = rng.choice([{'kind': 'sweeping'}, {'kind': 'random', 'seed': self.gen_seed(rng), 'seeded': True}])
+    init_size = rng.randint(4, 9)
+    algo = {'kind': 'evo', 'init': init, 'init_size': init_size,
+            'repro': [rng.choice(['best_next', 'last_gen']), rng.randint(1, 2)],
+            'update': rng.choice([['none'], ['last', rng.randint(1, 4)], ['top', rng.randint(1, 4)]])}
+    events, done = [], 0
+    while done < init_size + 1:
+      b = rng.randint(2, 4)
+      events += [['p']] * b
+      for i in rng.shuffle(list(range(done, done + b))):
+        events.append(['f', i, rng.randint(0, 9)])
+      done += b
+    return {'algo': algo, 'dims': rng.choice([[3, 3], [4, 3], [5, 4], [6, 4]]), 'events': events, 'm': 3,
+            'feed': rng.choice(['list', 'iter', 'gen']), 'cuts': rng.choice([[], [], [50]])}
+
   def gen_sched(self, rng):
     phases = [[rng.randint(1, 5), rng.choice([['const', rng.randint(0, 4)], ['step']])]
               for _ in range(rng.randint(1, 4))]
@@ -883,9 +901,11 @@ class C15(Prop):
             'k': rng.randint(0, n), 'stride': rng.weighted([(3, 1), (1, 2), (1, 3)])}
 
   def generate(self, rng, tier):
-    n_cases = 100 if tier == 'quick' else 800
+    n_cases = 85 if tier == 'quick' else 800
     for _ in range(12 if tier == 'quick' else 150):
       yield self.gen_sched(rng.fork())
+    for _ in range(10 if tier == 'quick' else 80):
+      yield self.gen_init_phase(rng.fork())
     for _ in range(n_cases):
       dims = rng.choice(self.DIMS)
       size = 1
@@ -1007,6 +1027,19 @@ class C15(Prop):
           fails.append({'signature': '%s:continuation%s' % (
                             kind_name(cfg), ':after-rejected-duplicate' if rejected else ''),
                         'what': 'crash point k=%d: next proposals live=%s recovered=%s' % (k, a, b), 'k': k})
+      # Continuation of an Evolution that is still building its initial population: its proposals are
+      # those of its initialiser; when that is a function of history and seed (Sweeping, seeded Random)
+      # and every proposal so far has been evaluated, the recovered instance must continue like the live one.
+      if ('error' not in rec and cfg['kind'] == 'evo' and cfg.get('init_size') and not failed_propose
+          and cfg['init']['kind'] in ('sweeping', 'random') and continuation_claimed(cfg['init'])
+          and all(h[1] is not None for h in ent['hist'])
+          and all(isinstance(x, dict) and x.get('initial') for x in ent['live_next'])):
+        a = [[x['dna'], x['initial']] for x in ent['live_next']]
+        b = [x if isinstance(x, str) else [x['dna'], x['initial']] for x in ent['rec_next']]
+        if a != b:
+          fails.append({'signature': 'evo:init-phase-continuation:%s' % kind_name(cfg['init']), 'k': k,
+                        'what': 'crash point k=%d (initial phase, every proposal evaluated): next proposals '
+                                'live=%s recovered=%s' % (k, a, b)})
     if not fails:
       return None
     known = known_signatures()
